@@ -432,6 +432,13 @@ func (e *Engine) coerceTo(v Val, t types.Type) Val {
 	return v
 }
 
+func (e *Engine) coerceLike(v, like Val) Val {
+	if like.Ty != nil {
+		return e.coerceTo(v, like.Ty)
+	}
+	return v
+}
+
 func (e *Engine) unify(a, b Val) (Val, Val) {
 	if a.Ty == nil && b.Ty != nil {
 		return e.coerceTo(a, b.Ty), b
@@ -477,6 +484,17 @@ func (e *Engine) specBin(cur, old *State, n SBin, env *SpecEnv) Val {
 			}
 			return boolVal(t)
 		}
+	}
+	if (n.Op == "==" || n.Op == "!=") && ((l.K == KIface && r.K == KPtr && r.Ty != nil) || (r.K == KIface && l.K == KPtr && l.Ty != nil)) {
+		i, p := l, r
+		if r.K == KIface {
+			i, p = r, l
+		}
+		t := and(eq(i.T, p.T), eq(i.X[0], e.P.reg.tagOf(p.Ty)))
+		if n.Op == "!=" {
+			t = not(t)
+		}
+		return boolVal(t)
 	}
 	if (n.Op == "==" || n.Op == "!=") && l.K == KIface && r.K == KIface {
 		t := and(eq(l.T, r.T), eq(l.X[0], r.X[0]))
@@ -597,6 +615,13 @@ func (e *Engine) specCall(cur, old *State, n SCall, env *SpecEnv) Val {
 			return boolVal("false")
 		case "b2i":
 			return Val{K: KInt, Ty: types.Typ[types.Int], T: ite(e.evalSpecBool(cur, old, n.Args[0], env), bvLit(1, 64), bvLit(0, 64))}
+		case "same": // structural equality (NaN == NaN), component-wise
+			return e.specBin2(cur, "==", arg(0), e.coerceLike(arg(1), arg(0)))
+		case "isZero":
+			return boolVal("(fp.isZero " + arg(0).T + ")")
+		case "fadd", "fsub", "fmul", "fdiv":
+			a, b := arg(0), arg(1)
+			return Val{K: KFloat, Ty: types.Typ[types.Float64], T: "(fp." + id.Name[1:] + " RNE " + a.T + " " + b.T + ")"}
 		case "isNaN":
 			return boolVal("(fp.isNaN " + arg(0).T + ")")
 		case "isInf":
